@@ -40,7 +40,7 @@ C05_QUICK = ["transpose", "zip_lo", "zip_hi", "swizzle_dyn", "compress", "expand
 
 C09_OPS = ["reduce_add", "reduce_max", "reduce_min", "haddp"]
 
-C16_OPS = ["cadd", "csub", "cneg", "cconj", "creal", "cimag", "ceq", "cneq"]
+C16_OPS = ["cadd", "csub", "cneg", "cconj", "creal", "cimag", "ceq", "cneq", "cload_aligned", "cload_unaligned", "cstore_aligned", "cstore_unaligned"]
 
 PROPS = {
     "C16": dict(ops=C16_OPS, types=FLOAT_TYPES, design="5.17"),
